@@ -29,7 +29,7 @@ def run(path):
             if only and pid not in only:
                 continue
             q = subprocess.run([VERIF + "/check", pid, "--tier", "quick"], cwd=VERIF,
-                               env=dict(os.environ, VERIF_REPO=wt, VERIF_JOBS="4"), capture_output=True, text=True)
+                               env=dict(os.environ, VERIF_REPO=wt, VERIF_JOBS="4", VERIF_EVIDENCE_DIR="/tmp/wt/ev"), capture_output=True, text=True)
             res[pid] = q.returncode
             if q.returncode != 0:
                 res[pid + "_detail"] = (q.stdout[-600:] + q.stderr[-900:])
